@@ -83,6 +83,7 @@ inductive AOp where
   | borrow (j : Nat)   -- lend element `i_j` of the array at `P_j` (inside container `j-1`) into slot `j`
   | ret (j : Nat)      -- put slot `j` back into cell `i_j` of the array at `P_j`
   | call               -- the callee updates the argument inside slot `m` (the root when `m = 0`)
+  | cset (j : Nat)     -- classical `set`: overwrite the PRESENT cell `i_j` of the array at `P_j` with slot `j`
   deriving DecidableEq, Repr, Inhabited
 
 /-- `(load j, store j)`:
@@ -140,6 +141,17 @@ def stepA (f : V → V) (p : CPath) (s : Slots) : AOp → M Slots
         match putP c.steps (s j) (s (j - 1)) with
         | none => throw .badPath
         | some cont => pure (upd s (j - 1) cont)
+  | .cset j =>
+    match p.chunks[j - 1]? with
+    | none => throw .badPath
+    | some c =>
+      match getP c.steps (s (j - 1)) with
+      | none => throw .badPath
+      | some e =>
+        if e.isHole then throw .alreadyBorrowed else
+        match putP c.steps (s j) (s (j - 1)) with
+        | none => throw .badPath
+        | some cont => pure (upd s (j - 1) cont)
   | .call =>
     let m := p.chunks.length
     match getP p.tailSteps (s m) with
@@ -160,6 +172,15 @@ def initSlots (x : V) : Slots := fun k => if k = 0 then x else .hole
 /-- place-level execution of `callee(π)` on the store `x`; returns the new value of the root -/
 def callBorrowA (f : V → V) (p : CPath) (x : V) : M V := do
   let s ← runA f p (emitAbs p.chunks.length) (initSlots x)
+  pure (s 0)
+
+/-- `xs…[i_m] = v` for a COPYABLE element (`_assign_place` with `subscript == lhs.place`, classical
+    `__setitem__`): the place is bound to `v` (slot `m`), the parent is visited (`load (m-1)`),
+    `set`, and the parent is written back (`store (m-1)`).  Requires `m ≥ 1` and an empty tail. -/
+def emitAssignSetAbs (m : Nat) : List AOp := load (m - 1) ++ [.cset m] ++ store (m - 1)
+
+def assignSetA (f : V → V) (p : CPath) (x v : V) : M V := do
+  let s ← runA f p (emitAssignSetAbs p.chunks.length) (upd (initSlots x) p.chunks.length v)
   pure (s 0)
 
 /-! ## Function types: borrowed inputs are appended to the outputs (`FunctionType.to_hugr`) and
@@ -193,14 +214,30 @@ def updateInoutPorts : List Param → List Nat → Option (List (Nat × Nat) × 
 
 inductive Ty where
   | q                    -- a linear leaf (qubit)
+  | c                    -- a copyable leaf (int, bool, …)
   | tup (ts : List Ty)   -- struct or tuple
   | arr (t : Ty)
   deriving Repr, Inhabited
+
+mutual
+/-- `ty.linear` of the compiler: neither copyable nor droppable.  An array / struct / tuple is
+    linear iff it contains a linear component (`array[int, n]` and structs of such are affine). -/
+def Ty.lin : Ty → Bool
+  | .q => true
+  | .c => false
+  | .arr t => t.lin
+  | .tup ts => linAny ts
+def linAny : List Ty → Bool
+  | [] => false
+  | t :: ts => t.lin || linAny ts
+end
 
 inductive Op where
   | unpack | pack | itousize | borrow | ret
   | call (name : String)
   | drop                 -- `tket.guppy.drop` of a droppable value that was replaced
+  | set                  -- classical `borrow_arr.set` (copyable elements)
+  | unwrap               -- `build_unwrap_right(…, "Array index out of bounds")` of the `set` result
   | other (name : String)
   deriving DecidableEq, Repr, Inhabited
 
@@ -241,8 +278,15 @@ def CS.addOp (s : CS) (op : Op) (args : List Nat) (nout : Nat) : CS × List Nat 
   ({ s with instrs := ⟨op, args, nout⟩ :: s.instrs, next := s.next + nout },
     (List.range nout).map (· + s.next))
 
+/-- forget the wires of the linear children of `p` -/
+def popLin : List Ty → PlaceId → Nat → CS → CS
+  | [], _, _, s => s
+  | t :: ts, p, k, s => popLin ts p (k + 1) (if t.lin then s.pop (p ++ [.proj k]) else s)
+
 mutual
-/-- `DFContainer.__getitem__` (all modelled types are linear, so packed children are popped) -/
+/-- `DFContainer.__getitem__`: a struct/tuple place that is not bound is packed from its children;
+    the wires of *linear* children are forgotten (`if child.ty.linear: self.locals.pop(child.id)`),
+    copyable and affine children stay bound -/
 def dget : Ty → PlaceId → CS → CS × Nat
   | ty, p, s =>
     match s.find p with
@@ -252,7 +296,7 @@ def dget : Ty → PlaceId → CS → CS × Nat
       | .tup ts =>
         let (s1, ws) := dgetChildren ts p 0 s
         let (s2, out) := s1.addOp .pack ws 1
-        let s3 := (List.range ts.length).foldl (fun st k => st.pop (p ++ [.proj k])) s2
+        let s3 := popLin ts p 0 s2
         (s3.set p (out.headD 0), out.headD 0)
       | _ => ({ s with bad := true }, 4294967295)
 def dgetChildren : List Ty → PlaceId → Nat → CS → CS × List Nat
@@ -408,12 +452,39 @@ def emitAssignW (t : Ty) (p : CPath) : Prog :=
   let (s, _) := s.addOp .drop [old] 0
   if s.bad || p.tail.isEmpty then ⟨m + 2, [⟨.other "bad", [], 0⟩], []⟩ else ⟨m + 2, s.instrs.reverse, [out]⟩
 
+/-- `def probe(x: T, i1: int, …, v: E) -> None: x.p₁[i₁]…p_m[i_m] = v` for a copyable element type `E`
+    (empty tail): `self.dfg[lhs.place] = port`, `value_var := dfg[subscript]`, then the classical
+    `__setitem__(parent, i_m, value_var)` = visit parent, `itousize`, `set`, unwrap, re-bind the array
+    place, write-back of the parent. -/
+def emitAssignSetW (t : Ty) (p : CPath) : Prog :=
+  let m := p.chunks.length
+  let lv := mkLevels t [] p.chunks 1
+  let s : CS := { next := m + 2 }
+  let s := dset t [] 0 s
+  match lv[m - 1]? with
+  | none => ⟨m + 2, [⟨.other "bad", [], 0⟩], []⟩
+  | some l =>
+    let s := dset l.elemTy (subId l m) (m + 1) s
+    let r := dget l.elemTy (subId l m) s
+    let ls := loadStoreW lv (m - 1)
+    let s := ls.1 r.1
+    let r1 := dget l.arrTy l.arrId s
+    let r2 := r1.1.addOp .itousize [l.idxWire] 1
+    let r3 := r2.1.addOp .set [r1.2, r2.2.headD 0, r.2] 1
+    let r4 := r3.1.addOp .unwrap [r3.2.headD 0] 2
+    let s := dset l.arrTy l.arrId (r4.2.tail.headD 0) r4.1
+    let s := ls.2 s
+    let r5 := dget t [] s
+    if r5.1.bad || m == 0 || !p.tail.isEmpty then ⟨m + 2, [⟨.other "bad", [], 0⟩], []⟩
+    else ⟨m + 2, r5.1.instrs.reverse, [r5.2]⟩
+
 /-! ### interpreter of wire-level op lists -/
 
 inductive W where
   | val (v : V)
   | int (i : Nat)       -- a non-negative Guppy int (index variable)
   | usize (n : Nat)
+  | either (right : Bool) (elem arr : V)   -- result of `set`: right = (old element, new array)
   deriving Repr, Inhabited
 
 /-- the tree values on a list of wires (`none` if an index / usize is among them) -/
@@ -439,6 +510,11 @@ def stepW (f : V → V) : Op → List W → M (List W)
       | some c => if !c.isHole then throw .notBorrowed else pure [.val (.arr (cs.set i e))]
   | .call _, [.val v] => pure [.val (f v)]
   | .drop, [.val _] => pure []
+  | .set, [.val (.arr cs), .usize i, .val v] =>
+      match cs[i]? with
+      | none => pure [.either false v (.arr cs)]
+      | some e => if e.isHole then throw .alreadyBorrowed else pure [.either true e (.arr (cs.set i v))]
+  | .unwrap, [.either r e a] => if r then pure [.val e, .val a] else throw .badPath
   | _, _ => throw .illTyped
 
 def lookupW (env : List W) : List Nat → M (List W)
